@@ -21,12 +21,21 @@ type c15Mutant struct {
 	msgOnly bool // a fragmentation-rule / message-size violation: message-level APIs only
 }
 
-func c15Run(c *vf.Case, msgs []wsMsg, events []wsEvent, k int, mut c15Mutant, wire []byte, cuts []int, api string, maxSize int, deferReads bool, label string) {
+func c15Run(c *vf.Case, msgs []wsMsg, events []wsEvent, k int, mut c15Mutant, wire []byte, cuts []int, api string, maxSize int, deferReads bool, preClosed bool, label string) {
 	s, t := newWS(c)
 	if s == nil {
 		return
 	}
 	s.SetMaxMessageSize(maxSize)
+	if preClosed {
+		// the session is already in its closing handshake (the client sent Close, the peer's Close has not
+		// arrived yet): reads continue and violations must still be reported
+		if err := s.Close(websocket.CloseNormal, ""); err != nil {
+			c.Failf("local-close-failed", "Close on an active stream: %v", err)
+			return
+		}
+		label += " after-local-close"
+	}
 	t.DeferReads = deferReads
 	var segs [][]byte
 	prev := 0
@@ -178,7 +187,7 @@ func c15Run(c *vf.Case, msgs []wsMsg, events []wsEvent, k int, mut c15Mutant, wi
 		switch f.Opcode {
 		case wsref.OpClose:
 			closes++
-			if len(f.Payload) < 2 || int(f.Payload[0])<<8|int(f.Payload[1]) != 1002 {
+			if !preClosed && (len(f.Payload) < 2 || int(f.Payload[0])<<8|int(f.Payload[1]) != 1002) {
 				fail("close-code-not-1002", "Close frame after the violation carries payload %x", f.Payload)
 				return
 			}
@@ -343,7 +352,11 @@ func runC15(c *vf.Case) {
 			if c.Failed() {
 				return
 			}
-			c15Run(c, msgs, events, k, mut, wire, cs, api, maxSize, r.Bool(), fmt.Sprintf("cuts@%v", cs))
+			pre := r.Chance(1, 4)
+			c15Run(c, msgs, events, k, mut, wire, cs, api, maxSize, r.Bool(), pre, fmt.Sprintf("cuts@%v", cs))
+			if pre {
+				c.Count("mutant_reads_after_local_close", 1)
+			}
 			c.Count("mutant_reads", 1)
 		}
 	}
@@ -362,6 +375,7 @@ func init() {
 			"fragmentation-rule violations and message-size violations are only required of the message-level APIs",
 			"Close(1002) + refusal of writes is required after framing-rule violations (reserved bits/opcodes, masked, control FIN=0, control > 125), as the statement says",
 			"frames after the violating one are not inspected",
+			"a quarter of the reads happen after the client's own Close (closed-by-us): the violation must still be reported; then exactly one Close (the client's own) may be on the wire",
 		},
 		NumCases: func(tier, build string) int { return vf.Tiered(tier, 1500, 100000) },
 		Floor:    func(tier string) int { return vf.Tiered(tier, 30, 60) },
